@@ -64,9 +64,10 @@ def h1_phonon_objects(chk, rng):
         t0 = time.time()
 
         def scenario(order):
-            o = cls(d, (ei, ei) if "Longitudinal" in cls_name else (ei, ej))
-            first = {n: numpy.array(getattr(o, n), dtype=object).copy() for n in order}
-            second = {n: numpy.array(getattr(o, n), dtype=object).copy() for n in reversed(order)}
+            with patched((ns, {"numpy": NumpyProxy()})):
+                o = cls(d, (ei, ei) if "Longitudinal" in cls_name else (ei, ej))
+                first = {n: numpy.array(getattr(o, n), dtype=object).copy() for n in order}
+                second = {n: numpy.array(getattr(o, n), dtype=object).copy() for n in reversed(order)}
             return first, second
         try:
             for order in orders:
@@ -130,7 +131,8 @@ def h2_task_list(chk, rng):
     t0 = time.time()
 
     def scenario(first_kind):
-        with patched((tk, {"numpy": proxy}), (sh, {"numpy": proxy})):
+        import cij.core.phonon_contribution.nonshear as ns_
+        with patched((tk, {"numpy": proxy}), (sh, {"numpy": proxy}), (ns_, {"numpy": proxy})):
             tl = tk.PhononContributionTaskList(duck)
             tl.resolve(strain, [c_(k[1:]) for k in keys])
             tl.calculate()
